@@ -27,6 +27,16 @@ type histCfg struct {
 	FinalReopen bool // every fresh history ends with clean shutdown + restart + check (pages re-read from disk)
 	Walk        bool // run the tree walker after every fresh event
 	OnlyWalk    bool // judge only the walker (and crashes/hangs of tree code); other oracles belong to other properties
+	AltSchemas  bool // the tables t1, t2, t3 are declared with other columns than in every other config (same names)
+}
+
+// altSchemas: the same table names as worldSchemas with different column lists
+// (nothing a process learnt about a table of one database may be applied to
+// the table of the same name in another one).
+var altSchemas = map[string][]mCol{
+	"t1": {{"a", "bigint"}, {"d", "boolean"}, {"c", "varchar"}},
+	"t2": {{"b", "int"}, {"c", "varchar"}},
+	"t3": {{"a", "int"}, {"c", "varchar"}, {"e", "int"}},
 }
 
 // seeds are scripted set-ups producing interesting initial states.
@@ -86,6 +96,11 @@ var histSeeds = map[string]func(w *world) *world{
 	},
 	// many tables: the catalog trees themselves have split (sys_pages at 9 rows, sys_schema at 9 columns)
 	// six user tables: the next CREATE TABLE splits the root of the page table
+	// two tables whose names differ in letter case only, both one row short of their first root change
+	"case-twins": func(w *world) *world {
+		return okw(w, w.do(mkCreate("T1", worldSchemas["T1"])) && w.do(mkCreate("t1", worldSchemas["t1"])) &&
+			w.do(mkInsert(w.model, "T1", 8, false)) && w.do(mkInsert(w.model, "t1", 8, false)))
+	},
 	"six-tables": func(w *world) *world {
 		for i := 0; i < 5; i++ {
 			if !w.do(mkCreate(fmt.Sprintf("c%d", i), []mCol{{"a", "int"}, {"c", "varchar"}})) {
@@ -123,6 +138,11 @@ func histBody(cfgs []histCfg, crashBound int) lib.Body {
 		ci := c.Choose(len(cfgs), "config")
 		cfg := cfgs[ci]
 		c.Logf("config %s: seed=%s caps(leaf,internal,cache)=%d,%d,%d depth=%d", cfg.Name, cfg.Seed, cfg.Opt.Leaf, cfg.Opt.Internal, cfg.Opt.Cache, cfg.Depth)
+		if cfg.AltSchemas {
+			saved := worldSchemas
+			worldSchemas = altSchemas
+			defer func() { worldSchemas = saved }()
+		}
 		w := newWorld(c, cfg.Opt)
 		defer func() { w.destroy() }()
 		if cfg.OnlyWalk {
